@@ -270,6 +270,8 @@ def run_restest_multi(ctx, n, d):
 
 
 def run(ctx):
+    from props import cli_proc
+    cli_proc.stream(ctx, ['C20'])
     rng = ctx.rng
     d = tempfile.mkdtemp(prefix='pffc20')
     try:
@@ -309,6 +311,9 @@ def run(ctx):
 
 
 def replay_case(ctx, case):
+    if isinstance(case, dict) and case.get('kind') == 'cli-process':
+        from props import cli_proc
+        return cli_proc.replay(case)
     import pyFileFixity.resiliency_tester as rt
     d = tempfile.mkdtemp(prefix='pffc20r')
     try:
